@@ -3,6 +3,7 @@
 use std::collections::BTreeMap;
 use std::panic::{catch_unwind, AssertUnwindSafe};
 use std::sync::atomic::Ordering::SeqCst;
+use std::sync::Arc;
 
 use shred::World;
 
@@ -320,9 +321,65 @@ fn case_async(rng: &mut Rng, pool: &Pool, rep: &mut Report, case_no: u64) {
             break;
         }
     }
+    // setup while a dispatch is in flight (one system is parked inside run; a helper lets it go
+    // once this thread is about to block): it waits for the dispatch and then reaches everything
+    let in_flight = rng.chance(1, 3);
+    if in_flight {
+        use crate::props::c15::Latch;
+        use std::sync::atomic::AtomicBool;
+        use std::time::{Duration, Instant};
+        for s in Slot::all() {
+            if !ad.world().has_value_raw(s.rid()) {
+                insert_slot(ad.world_mut(), s, 0xfeed_2000 + s.0 as u64);
+            }
+        }
+        let tops: Vec<u32> = plan.items.iter().filter_map(|i| if let Item::Sys(s) = i { Some(s.uid) } else { None }).collect();
+        if let Some(&target) = tops.first() {
+            let latch = Arc::new(Latch::new(target, Duration::from_secs(8)));
+            ctx.arm(latch.clone());
+            ctx.set_mode(Mode::Run);
+            ad.dispatch();
+            let entered = wait_until(Instant::now() + Duration::from_secs(8), || latch.entered.load(SeqCst));
+            let about = AtomicBool::new(false);
+            let r = std::thread::scope(|s| {
+                s.spawn(|| {
+                    wait_until(Instant::now() + Duration::from_secs(8), || about.load(SeqCst));
+                    std::thread::sleep(Duration::from_micros(400));
+                    latch.open.store(true, SeqCst);
+                });
+                about.store(true, SeqCst);
+                catch_unwind(AssertUnwindSafe(|| ad.setup()))
+            });
+            ctx.set_mode(Mode::Build);
+            ctx.disarm();
+            let _ = ctx.take_violations();
+            if !entered || latch.timed_out.load(SeqCst) {
+                rep.inconclusive += 1;
+                return;
+            }
+            rep.metric("async_setups_while_a_dispatch_is_in_flight", 1);
+            if let Err(p) = r {
+                rep.violation("setup_panicked", &format!("AsyncDispatcher::setup called while a dispatch is in flight panicked: {}", payload_str(&*p)), case_no, J::obj().set("plan", plan.to_json()));
+                return;
+            }
+            for (u, what) in all_uids(&plan) {
+                let n = ctx.setups[u as usize].load(SeqCst);
+                if n != 2 {
+                    rep.violation(
+                        if n < 2 { "setup_missed" } else { "setup_repeated" },
+                        &format!("AsyncDispatcher::setup was called a second time while a dispatch was in flight: the {} u{} has been set up {} times in all", what, u, n),
+                        case_no,
+                        J::obj().set("plan", plan.to_json()),
+                    );
+                    return;
+                }
+            }
+            ad.wait();
+        }
+    }
     // the dispatcher is used (every resource exists now), a thread-local system may panic in
     // `wait` - the caller catches it - and setup is called again: it still reaches everything
-    if rng.chance(1, 2) {
+    if !in_flight && rng.chance(1, 2) {
         for s in Slot::all() {
             if !ad.world().has_value_raw(s.rid()) {
                 insert_slot(ad.world_mut(), s, 0xfeed_1000 + s.0 as u64);
